@@ -4,7 +4,7 @@
 EXTENDS StatImc, IOUtils
 EnvInt(name, dflt) == IF name \in DOMAIN IOEnv THEN atoi(IOEnv[name]) ELSE dflt
 MCSeeds == LET s0 == EnvInt("C04_SEED0", 1) n == EnvInt("C04_NSEED", 2) IN s0..(s0 + n - 1)
-MCKinds == LET k == EnvInt("C04_KINDS", 1234567)
+MCKinds == LET k == EnvInt("C04_KINDS", 123456789)
                RECURSIVE Digits(_)
                Digits(x) == IF x = 0 THEN {} ELSE {x % 10} \cup Digits(x \div 10)
            IN Digits(k)
